@@ -11,17 +11,21 @@ import (
 
 	cmtabci "github.com/cometbft/cometbft/abci/types"
 
+	beacon "github.com/oasisprotocol/oasis-core/go/beacon/api"
+	"github.com/oasisprotocol/oasis-core/go/common"
 	"github.com/oasisprotocol/oasis-core/go/common/crypto/signature"
 	"github.com/oasisprotocol/oasis-core/go/common/node"
 	"github.com/oasisprotocol/oasis-core/go/common/quantity"
 	"github.com/oasisprotocol/oasis-core/go/consensus/api/transaction"
 	cmtapi "github.com/oasisprotocol/oasis-core/go/consensus/cometbft/api"
+	beaconState "github.com/oasisprotocol/oasis-core/go/consensus/cometbft/apps/beacon/state"
 	registryState "github.com/oasisprotocol/oasis-core/go/consensus/cometbft/apps/registry/state"
 	schedulerState "github.com/oasisprotocol/oasis-core/go/consensus/cometbft/apps/scheduler/state"
 	stakingState "github.com/oasisprotocol/oasis-core/go/consensus/cometbft/apps/staking/state"
 	tmcrypto "github.com/oasisprotocol/oasis-core/go/consensus/cometbft/crypto"
 	genesis "github.com/oasisprotocol/oasis-core/go/genesis/api"
 	registry "github.com/oasisprotocol/oasis-core/go/registry/api"
+	scheduler "github.com/oasisprotocol/oasis-core/go/scheduler/api"
 	"github.com/oasisprotocol/oasis-core/go/storage/mkvs"
 	staking "github.com/oasisprotocol/oasis-core/go/staking/api"
 )
@@ -261,10 +265,45 @@ func (n *cnNet) electionInput(ctx context.Context, t mkvs.ImmutableKeyValueTree)
 		}
 		ent := n.nameOf(staking.NewAddress(nd.EntityID))
 		ents[ent] = true
+		rts := []map[string]any{}
+		susp := []string{}
+		for _, nrt := range nd.Runtimes {
+			rts = append(rts, map[string]any{"id": n.runtimeName(nrt.ID), "ver": int64(nrt.Version.ToU64()), "tee": nrt.Capabilities.TEE != nil})
+			if err == nil && status != nil && status.IsSuspended(nrt.ID, epochOf(ctx, t)) {
+				susp = append(susp, n.runtimeName(nrt.ID))
+			}
+		}
 		nl = append(nl, map[string]any{
 			"id": n.keyName(nd.ID.String()), "ent": ent, "validator": nd.HasRoles(node.RoleValidator), "roles": int64(nd.Roles),
 			"exp": int64(nd.Expiration), "frozen": frozen, "cons": fmt.Sprintf("%x", nd.Consensus.ID[:]),
+			"compute": nd.HasRoles(node.RoleComputeWorker), "rts": rts, "susp": susp,
 		})
+	}
+	// the runtimes the committee election iterates over (registered, not suspended)
+	rtl := []map[string]any{}
+	if runtimes, rerr := rs.Runtimes(ctx); rerr == nil {
+		ep := epochOf(ctx, t)
+		for _, rt := range runtimes {
+			ver := int64(-1)
+			if ad := rt.ActiveDeployment(ep); ad != nil {
+				ver = int64(ad.Version.ToU64())
+			}
+			cons := map[string]any{}
+			for role, name := range map[scheduler.Role]string{scheduler.RoleWorker: "worker", scheduler.RoleBackupWorker: "backup"} {
+				c := rt.Constraints[scheduler.KindComputeExecutor][role]
+				mx, mp := int64(0), int64(0)
+				if c.MaxNodes != nil {
+					mx = int64(c.MaxNodes.Limit)
+				}
+				if c.MinPoolSize != nil {
+					mp = int64(c.MinPoolSize.Limit)
+				}
+				cons[name] = map[string]any{"max": mx, "minp": mp, "vs": c.ValidatorSet != nil}
+			}
+			rtl = append(rtl, map[string]any{"id": n.runtimeName(rt.ID), "compute": rt.IsCompute(), "gs": int64(rt.Executor.GroupSize),
+				"bs": int64(rt.Executor.GroupBackupSize), "ver": ver, "tee": rt.TEEHardware != node.TEEHardwareInvalid, "cons": cons})
+		}
+		sort.Slice(rtl, func(i, j int) bool { return rtl[i]["id"].(string) < rtl[j]["id"].(string) })
 	}
 	sort.Slice(nl, func(i, j int) bool { return nl[i]["id"].(string) < nl[j]["id"].(string) })
 	el := map[string]any{}
@@ -296,7 +335,26 @@ func (n *cnNet) electionInput(ctx context.Context, t mkvs.ImmutableKeyValueTree)
 	if nl == nil {
 		nl = []map[string]any{}
 	}
-	return map[string]any{"nodes": nl, "entities": el, "thresholds": thr}, nil
+	return map[string]any{"nodes": nl, "entities": el, "thresholds": thr, "runtimes": rtl}, nil
+}
+
+// runtimeName maps a runtime ID back to the scenario's name (R0, R1), or a short hex string.
+func (n *cnNet) runtimeName(id common.Namespace) string {
+	for _, r := range []string{"R0", "R1", "R2", "R3"} {
+		if x := runtimeID(r); x.Equal(&id) {
+			return r
+		}
+	}
+	return id.String()[:12]
+}
+
+// epochOf reads the current epoch from the beacon state of the given tree.
+func epochOf(ctx context.Context, t mkvs.ImmutableKeyValueTree) beacon.EpochTime {
+	ep, _, err := beaconState.NewImmutableState(t).GetEpoch(ctx)
+	if err != nil {
+		return 0
+	}
+	return ep
 }
 
 func (n *cnNet) keyName(k string) string {
@@ -332,7 +390,23 @@ func (n *cnNet) electionOutput(ctx context.Context, t mkvs.ImmutableKeyValueTree
 	if err != nil {
 		return nil, err
 	}
-	return map[string]any{"validators": vl, "max_validators": int64(params.MaxValidators), "max_per_entity": int64(params.MaxValidatorsPerEntity),
+	// runtime committees as the election left them
+	cl := []map[string]any{}
+	if comms, cerr := sc.AllCommittees(ctx); cerr == nil {
+		for _, c := range comms {
+			ms := []map[string]any{}
+			for _, m := range c.Members {
+				role := "worker"
+				if m.Role == scheduler.RoleBackupWorker {
+					role = "backup"
+				}
+				ms = append(ms, map[string]any{"id": n.keyName(m.PublicKey.String()), "role": role})
+			}
+			cl = append(cl, map[string]any{"rt": n.runtimeName(c.RuntimeID), "kind": c.Kind.String(), "valid_for": int64(c.ValidFor), "members": ms})
+		}
+		sort.Slice(cl, func(i, j int) bool { return cl[i]["rt"].(string)+cl[i]["kind"].(string) < cl[j]["rt"].(string)+cl[j]["kind"].(string) })
+	}
+	return map[string]any{"committees": cl, "validators": vl, "max_validators": int64(params.MaxValidators), "max_per_entity": int64(params.MaxValidatorsPerEntity),
 		"min_validators": int64(params.MinValidators)}, nil
 }
 
